@@ -100,4 +100,8 @@ theorem C14_hold_setters_generated (D : Desc) (s : St) :
 theorem C14_release_generated (D : Desc) (s : St) : processHoldState D s = Gen.process_hold_state D s :=
   processHoldState_generated D s
 
+/-- `hold_exit` (refused outside a hold; otherwise records OK or ERROR) is the function whose
+statements are re-recognised in the source on every run (translator item T14) -/
+theorem C14_hold_exit_generated : holdExit = Gen.hold_exit := holdExit_generated
+
 end Cat
